@@ -27,12 +27,10 @@ const (
 
 var (
 	usageGK = schema.GroupKind{Group: usageGroup, Kind: "Usage"}
-	thingGK = schema.GroupKind{Group: thingGroup, Kind: "Thing"}
 	xrGK    = schema.GroupKind{Group: "ex.org", Kind: "XThing"}
 )
 
 func usageKey(name string) sim.Key { return sim.Key{Group: usageGroup, Kind: "Usage", Name: name} }
-func thingKey(name string) sim.Key { return sim.Key{Group: thingGroup, Kind: "Thing", Name: name} }
 
 func groupOf(apiVersion string) string {
 	if i := strings.LastIndex(apiVersion, "/"); i >= 0 {
